@@ -6,14 +6,19 @@ import sys
 
 from . import common
 from .common import Check
-from .c17_impl import (CODE_ERR, ERR_CODE, HarnessBroken, Impl, Unsupported, cps, show_outcome)
+from .c17_impl import (CODE_ERR, ERR_CODE, HarnessBroken, Impl, Unsupported, cps, show_decl, show_outcome)
 
 RULE = ("every single-character delete / duplicate / swap / insert corruption of 14 seed programs "
         "(insertions from the token alphabet), seeded random strings over the token alphabet plus "
         "names of registered built-ins, and a by-construction stream for each error class the "
         "statement names (every registered built-in with every wrong argument count and every wrong "
-        "top-level argument type); non-trivial = distinct text that reaches a quote/bracket scanner "
-        "or a call (contains one of ( [ { \" ')")
+        "top-level argument type, the declared type of the parameter - annotation normalised: typing "
+        "generics by origin, string annotations, Optional, NewType, Annotated - deciding what is wrong), "
+        "string literals in every position a literal can stand in with a backslash before every ASCII "
+        "character, escape heads (hex/unicode/named/octal) with complete, truncated and ill-formed tails, "
+        "every ASCII character as a directive introducer, and seeded random literals over all of ASCII; "
+        "non-trivial = distinct text that reaches a quote/bracket scanner or a call (contains one of "
+        "( [ { \" ')")
 
 SEEDS = [
     'RETURN = 1;',
@@ -380,7 +385,16 @@ def main(argv=None):
                                                  "script_exhausted": exh})
 
     ck.coverage["lenient_acceptance_examples"] = lenient
-    ck.coverage["registry"] = {n: {"kinds": k, "body": b} for n, k, b in impl.table}
+    ck.coverage["registry"] = {n: {"kinds": k, "body": b, "declared": [show_decl(d) for d in impl.decl[n]]}
+                               for n, k, b in impl.table}
+    # declared types that no expectation is derived from (parameters with a default: the decorator's
+    # own condition excludes them) and declared classes beyond the model's four
+    ck.coverage["declared_not_checked"] = sorted(
+        f"{n}: parameter {i} {show_decl(d)}" for n, _, _ in impl.table for i, d in enumerate(impl.decl[n])
+        if d[0] == "default" and d[1] == "cls")
+    ck.coverage["declared_outside_model"] = sorted(
+        f"{n}: parameter {i} {show_decl(d)}" for n, k, _ in impl.table for i, d in enumerate(impl.decl[n])
+        if k[i] == 6 and d[0] != "any")
     ck.assumptions += [
         "built-in bodies are an oracle: the model is replayed against the outcomes recorded from the implementation's "
         "own body calls, and must make the same calls with the same arguments in the same order",
@@ -389,6 +403,11 @@ def main(argv=None):
         f"int() refuses more than sys.get_int_max_str_digits() = {impl.max_digits} digits (model parameter max_digits, "
         "shipped with every case); literals of 19..max_digits digits are not sent through the driver (63-bit text glue)",
         "CPython's recursion limit is not modelled (nesting depth of generated texts stays far below it)",
+        "a parameter's declared type is its annotation in normal form (string annotations evaluated, Optional / "
+        "NewType / Annotated unwrapped, typing generics replaced by their origin class); declared list, str, int, "
+        "float without a default are the type-checked parameters of the model and of the wrong-type stream; any "
+        "other declared class without a default is demanded by the wrong-type stream only (outside the model); a "
+        "parameter with a default is not considered checked (coverage: declared_not_checked)",
     ]
     return ck.finish(RULE)
 
